@@ -1,6 +1,7 @@
 import J5V.Codec.RoundtripFlat
 import J5V.Codec.WireProofs
 import J5V.Codec.AnyProofs
+import J5V.Codec.TreeDepth
 /-!
 # The induction on the encoder's fuel (C01, environments with flattened objects, exposed oneofs,
 proto oneofs — `Env.flat`)
@@ -182,12 +183,13 @@ open J5V.Go J5V.Json
 
 structure RTP (c : Cfg) (f : Nat) : Prop where
   val : ∀ fld v, fieldSimple fld = true → valOk c.env c.O fld v = true → 5 * v.depth + 1 ≤ f →
+    modeOk c.protoToAny f c.anyDepth v = true →
     ∃ t, encValue c.env c.O f fld v = .ok t ∧ Dec c fld v t ∧
       (OracleWire c.O → Wire.Conforms c.env c.O fld v t)
   obj : ∀ props fs, rootFlat c.env (.object props) = true →
     (∀ p ∈ props, isValidUtf8 p.jsonName = true) → asorted fs = true →
     fieldsOk c.env c.O props fs = true → groupsOk props fs = true → exposedOk c.env props fs = true →
-    5 * depthFields fs + 5 ≤ f →
+    5 * depthFields fs + 5 ≤ f → modeOkF c.protoToAny f c.anyDepth fs = true →
     ∃ ms S, encObjectBody c.env c.O f props fs = .ok (.obj ms) ∧
       decObjMembers c props ms { m := [], seen := [] } = .ok ({ m := fs, seen := S }, .closed) ∧
       (OracleWire c.O → Wire.MembersConform c.env c.O fs props ms)
@@ -195,7 +197,8 @@ structure RTP (c : Cfg) (f : Nat) : Prop where
     (ops.filter (isSet fs)).length ≤ 1 →
     (∀ q ∈ ops, ∀ k v, q.path = [k] → aget k fs = some v →
       valOk c.env c.O q.field v = true ∧ (q.pres == .imp && v.isZero) = false) →
-    5 * depthFields fs + 3 ≤ f → OneShape c ops fs (encOneofBody c.env c.O f ops fs)
+    5 * depthFields fs + 3 ≤ f → modeOkF c.protoToAny f c.anyDepth fs = true →
+    OneShape c ops fs (encOneofBody c.env c.O f ops fs)
 
 /-- the filter `encodeOneofBody` / `GetOne` applies is "the member's field is populated" -/
 theorem oneofSet_eq (env : Env) (f : Nat) (ops : List PropDef) (fs : Fields)
@@ -214,8 +217,9 @@ theorem RTP_one (c : Cfg) (f : Nat) (ih : ∀ f' < f + 1, RTP c f') :
       (ops.filter (isSet fs)).length ≤ 1 →
       (∀ q ∈ ops, ∀ k v, q.path = [k] → aget k fs = some v →
         valOk c.env c.O q.field v = true ∧ (q.pres == .imp && v.isZero) = false) →
-      5 * depthFields fs + 3 ≤ f + 1 → OneShape c ops fs (encOneofBody c.env c.O (f + 1) ops fs) := by
-  intro ops fs hroot hutf hle hvals hd
+      5 * depthFields fs + 3 ≤ f + 1 → modeOkF c.protoToAny (f + 1) c.anyDepth fs = true →
+      OneShape c ops fs (encOneofBody c.env c.O (f + 1) ops fs) := by
+  intro ops fs hroot hutf hle hvals hd hM
   obtain ⟨hsimple, hnames, _, _⟩ := oneof_root_facts ops hroot
   simp only [encOneofBody]
   rw [oneofSet_eq c.env f ops fs hroot]
@@ -239,7 +243,7 @@ theorem RTP_one (c : Cfg) (f : Nat) (ih : ∀ f' < f + 1, RTP c f') :
       rw [encField_single c.env c.O f' q k fs hqk]
       simp only [hag]
       obtain ⟨tv, htv, hdec, hcf⟩ := (ih f' (by omega)).val q.field v (propSimple_field q (hsimple q hq)) hvok
-        (by omega)
+        (by omega) (modeOk_anti _ _ _ (by omega) v _ (modeOk_aget _ _ _ fs k v hM hag))
       simp only [htv]
       obtain ⟨qlit, hql⟩ := member_ok q.jsonName tv (hutf q hq)
       simp only [hql]
@@ -384,13 +388,67 @@ theorem mapConform_of_all (env : Env) (O : Oracle) (item : Field) (g : PVal → 
       exact Wire.MapConform.cons item k' v kvs t lit (membersOf es) (hc (k', v) List.mem_cons_self t hg)
         (ih es hr (fun y hy => hc y (List.mem_cons_of_mem _ hy)))
 
-theorem RTP_val (c : Cfg) (hs : c.env.flat = true) (L : OracleLaws c.O)
-    (hA : c.protoToAny = false ∨ c.env.noJ5Any = true) (f : Nat)
-    (ih : ∀ f' < f + 1, RTP c f') :
+/-- the round trip of a root message, given the induction's facts at fuel `F` -/
+theorem root_of_RTP (c : Cfg) (hs : c.env.flat = true) (root : String) (m : Fields)
+    (hok : valOk c.env c.O (.object root) (.msg m) = true ∨ valOk c.env c.O (.oneof root) (.msg m) = true)
+    (F : Nat) (R : RTP c F) (hF : 5 * depthFields m + 5 ≤ F)
+    (hM : modeOkF c.protoToAny F c.anyDepth m = true) :
+    ∃ t, encRoot c.env c.O (F + 1) root (.msg m) = .ok t ∧ decRootTree c root t = .ok m := by
+  rcases hok with hok | hok
+  · obtain ⟨fs, props, hv, hfind, hsort, hfok, hgrp, hexp⟩ := valOk_object _ _ root _ hok
+    cases hv
+    obtain ⟨ms, S, henc, hdec, _⟩ := R.obj props m
+      (find_rootFlat c.env hs root _ hfind) (find_names_utf8' c.env hs root props (Or.inl hfind))
+      hsort hfok hgrp hexp (by omega) hM
+    refine ⟨.obj ms, ?_, ?_⟩
+    · show encRoot c.env c.O (F + 1) root (.msg m) = .ok (.obj ms)
+      simp only [encRoot, hfind]; exact henc
+    · simp [decRootTree, hfind, hdec, finishObject, closeOk]
+  · obtain ⟨fs, ops, hv, hfind, hsort, hfok, hlen⟩ := valOk_oneof _ _ root _ hok
+    cases hv
+    have hroot := rootFlat_oneof c.env ops (find_rootFlat c.env hs root _ hfind)
+    have hshape := R.one ops m hroot
+      (find_names_utf8' c.env hs root ops (Or.inr hfind)) (oneof_store_le ops m hroot hlen)
+      (oneof_store_facts c ops m hroot hfok) (by omega) hM
+    have henc : encRoot c.env c.O (F + 1) root (.msg m) =
+        encOneofBody c.env c.O F ops m := by
+      simp only [encRoot, hfind]
+    show ∃ t, encRoot c.env c.O (F + 1) root (.msg m) = .ok t ∧ _
+    rw [henc]
+    generalize encOneofBody c.env c.O F ops m = r at hshape
+    cases hshape with
+    | empty hnil =>
+      have hfs : m = [] := by
+        rcases length_le_one_cases m hlen with h | ⟨⟨k0, v0⟩, h⟩
+        · exact h
+        · exfalso
+          subst h
+          obtain ⟨hsimple, _, _, _⟩ := oneof_root_facts ops hroot
+          obtain ⟨p, hfp, _, _⟩ := fieldsOk_mem _ _ ops _ (simple_no_flatten ops hsimple) hfok k0 v0
+            List.mem_cons_self
+          obtain ⟨hp, hpk⟩ := leafProp_simple c.env ops k0 p hsimple hfp
+          have := filter_nil_unset ops _ hnil p hp k0 hpk
+          simp [aget] at this
+      subst hfs
+      exact ⟨_, rfl, by simp [decRootTree, hfind, decOneofMembers, finishOneof, oneofPost, closeOk, applyPost]⟩
+    | one q k v tlit nlit qlit tv hone hq hqk hag hdec hcf hz hec =>
+      have hfs : m = [(k, v)] := single_store m k v hlen hag
+      obtain ⟨hloop, hpost⟩ := decOneof_one c ops hroot q k v tlit nlit qlit tv [] hq hqk hdec hz hec rfl
+        (fun _ _ _ _ _ => rfl)
+      refine ⟨_, rfl, ?_⟩
+      have : aset k v ([] : Fields) = m := by rw [hfs]; rfl
+      rw [this] at hloop hpost
+      simp [decRootTree, hfind, hloop, finishOneof, closeOk, hpost, applyPost]
+
+
+theorem RTP_val (c : Cfg) (hs : c.env.flat = true) (L : OracleLaws c.O) (f : Nat)
+    (ih : ∀ f' < f + 1, RTP c f')
+    (ihD : ∀ f' < f + 1, RTP { c with anyDepth := c.anyDepth + 1 } f') :
     ∀ fld v, fieldSimple fld = true → valOk c.env c.O fld v = true → 5 * v.depth + 1 ≤ f + 1 →
+      modeOk c.protoToAny (f + 1) c.anyDepth v = true →
       ∃ t, encValue c.env c.O (f + 1) fld v = .ok t ∧ Dec c fld v t ∧
         (OracleWire c.O → Wire.Conforms c.env c.O fld v t) := by
-  intro fld v hfs hok hd
+  intro fld v hfs hok hd hM
   cases fld with
   | scalar k =>
     have hsok := valOk_scalar _ _ k v hok
@@ -431,6 +489,7 @@ theorem RTP_val (c : Cfg) (hs : c.env.flat = true) (L : OracleLaws c.O)
     obtain ⟨ms, S, henc, hdec, hcf⟩ := (ih f (Nat.lt_succ_self f)).obj props fs
       (find_rootFlat c.env hs ref _ hfind) (find_names_utf8' c.env hs ref props (Or.inl hfind))
       hsort hfok hgrp hexp (by omega)
+      (modeOkF_anti c.protoToAny (f + 1) f (Nat.le_succ f) fs _ (by simpa [modeOk] using hM))
     exact ⟨.obj ms, by simp only [encValue, hfind]; exact henc, Dec_object c ref props fs ms S hfind hdec,
       fun W => Wire.Conforms.object ref props fs ms hfind (hcf W)⟩
   | oneof ref =>
@@ -440,6 +499,7 @@ theorem RTP_val (c : Cfg) (hs : c.env.flat = true) (L : OracleLaws c.O)
     have hvals := oneof_store_facts c ops fs hroot hfok
     have hshape := (ih f (Nat.lt_succ_self f)).one ops fs hroot
       (find_names_utf8' c.env hs ref ops (Or.inr hfind)) (oneof_store_le ops fs hroot hlen) hvals (by omega)
+      (modeOkF_anti c.protoToAny (f + 1) f (Nat.le_succ f) fs _ (by simpa [modeOk] using hM))
     have henc : encValue c.env c.O (f + 1) (.oneof ref) (.msg fs) = encOneofBody c.env c.O f ops fs := by
       simp only [encValue, hfind]
     rw [henc]
@@ -474,21 +534,40 @@ theorem RTP_val (c : Cfg) (hs : c.env.flat = true) (L : OracleLaws c.O)
       · rw [hfs]; rfl
       · rw [hfs]; exact hpost
   | any pb =>
-    have hpb : pb = false := by
-      cases pb with
-      | false => rfl
-      | true => cases v <;> simp [valOk] at hok
-    subst hpb
-    obtain ⟨tn, j5, V, rfl, hna, hu, hj, hch, hr, hc, hd'⟩ := valOk_any _ _ v hok
-    have hmode : c.protoToAny = false := by
-      rcases hA with h | h
-      · exact h
-      · rw [h] at hna; cases hna
-    obtain ⟨tlit, nlit, vlit, he⟩ := enc_any_j5 c.env c.O f tn [] j5 .none "" (.msg []) hj hu
-    rw [chunkNode_some c.O j5 V hch hr] at he
-    refine ⟨_, he, ?_, fun _ => Wire.Conforms.any false _ tn tlit nlit vlit V rfl⟩
-    have := Dec_any c hmode tn tlit nlit vlit V hc hd'
-    rw [hr] at this; exact this
+    cases pb with
+    | false =>
+      obtain ⟨tn, j5, V, rfl, hna, hu, hj, hch, hr, hc, hd'⟩ := valOk_any _ _ v hok
+      have hmode : c.protoToAny = false := by simpa [modeOk] using hM
+      obtain ⟨tlit, nlit, vlit, he⟩ := enc_any_j5 c.env c.O f tn [] j5 .none "" (.msg []) hj hu
+      rw [chunkNode_some c.O j5 V hch hr] at he
+      refine ⟨_, he, ?_, fun _ => Wire.Conforms.any false _ tn tlit nlit vlit V rfl⟩
+      have := Dec_any c hmode tn tlit nlit vlit V hc hd'
+      rw [hr] at this; exact this
+    | true =>
+      obtain ⟨tn, iroot, fs, rfl, hne, hu, hres, hiok⟩ := valOk_anyPb _ _ v hok
+      simp only [PVal.depth] at hd
+      simp only [modeOk, Bool.and_eq_true, decide_eq_true_eq] at hM
+      obtain ⟨⟨⟨hmode, hdepth⟩, hcap⟩, hMi⟩ := hM
+      obtain ⟨F, rfl⟩ : ∃ F, f = F + 1 := ⟨f - 1, by omega⟩
+      have hMi' : modeOkF c.protoToAny F (c.anyDepth + 1) fs = true :=
+        modeOkF_anti c.protoToAny (F + 1 + 1) F (by omega) fs _ (by simpa [modeOk] using hMi)
+      obtain ⟨data, henc, hdec⟩ := root_of_RTP { c with anyDepth := c.anyDepth + 1 } hs iroot fs hiok F
+        (ihD F (by omega)) (by omega) hMi'
+      have hn5 : (PVal.msg fs).noJ5 = true := by
+        have hMt : modeOkF true F (c.anyDepth + 1) fs = true := by
+          have h := hMi'
+          rw [hmode] at h
+          exact h
+        have := modeOkF_noJ5 F (c.anyDepth + 1) fs hMt
+        simpa [PVal.noJ5] using this
+      obtain ⟨hdd, hcc⟩ := (TD_all c.env c.O (F + 1)).root iroot (.msg fs) data hn5 henc
+      obtain ⟨tlit, nlit, vlit, he⟩ := enc_any_pb c.env c.O F (anyPrefixB ++ tn) [] iroot (.msg fs) data
+        henc (by rw [show anyPrefixB = anyPrefix from rfl, trimPrefix_append]; exact hu)
+      rw [show anyPrefixB = anyPrefix from rfl, trimPrefix_append] at he
+      refine ⟨_, he, ?_, fun _ => Wire.Conforms.any true _ tn tlit nlit vlit data ?_⟩
+      · exact Dec_anyPb c hmode hdepth tn tlit nlit vlit data iroot fs hcc (by omega) hres hdec hne
+      · simp only [Wire.anyTypeName]
+        exact congrArg some (trimPrefix_append _ tn)
   | array item =>
     obtain ⟨xs, rfl, hlok⟩ := valOk_array _ _ item v hok
     have hi : itemSimple item = true := by simpa [fieldSimple] using hfs
@@ -499,6 +578,8 @@ theorem RTP_val (c : Cfg) (hs : c.env.flat = true) (L : OracleLaws c.O)
       have hdx := depthList_mem xs x hx
       exact (ih f (Nat.lt_succ_self f)).val item x (itemSimple_field item hi)
         (listOk_mem _ _ item xs hlok x hx) (by omega)
+        (modeOk_anti c.protoToAny (f + 1) f (Nat.le_succ f) x _
+          (modeOk_mem_list _ _ _ xs x (by simpa [modeOk] using hM) hx))
     obtain ⟨es, hes⟩ := foldr_consElem_ok (encValue c.env c.O f item) xs
       (fun x hx => by obtain ⟨t, ht, _⟩ := hall x hx; exact ⟨t, ht⟩)
     obtain ⟨ts, hts, rfl⟩ := foldr_consElem_inv _ xs es hes
@@ -525,6 +606,8 @@ theorem RTP_val (c : Cfg) (hs : c.env.flat = true) (L : OracleLaws c.O)
       intro kv hkv hv
       have hdx := depthMap_mem kvs kv.1 kv.2 hkv
       exact (ih f (Nat.lt_succ_self f)).val item kv.2 (itemSimple_field item hi) hv (by omega)
+        (modeOk_anti c.protoToAny (f + 1) f (Nat.le_succ f) kv.2 _
+          (modeOk_mem_map _ _ _ kvs kv.1 kv.2 (by simpa [modeOk] using hM) hkv))
     obtain ⟨ms, hms⟩ := foldr_consMember_ok
       (fun kv : Bytes × PVal => member kv.1 (encValue c.env c.O f item kv.2)) kvs (by
       intro kv hkv
@@ -615,6 +698,7 @@ theorem objMember_spec (c : Cfg) (L : OracleLaws c.O) (f : Nat)
     (hutf : ∀ p ∈ props, isValidUtf8 p.jsonName = true) (hsort : asorted fs = true)
     (hfok : fieldsOk c.env c.O props fs = true) (hexp : exposedOk c.env props fs = true)
     (hd : 5 * depthFields fs + 5 ≤ f + 3)
+    (hM : modeOkF c.protoToAny (f + 3) c.anyDepth fs = true)
     (hfindroot : ∀ ref ops, c.env.find ref = some (.oneof ops) →
       rootSimple (.oneof ops) = true ∧ ∀ q ∈ ops, isValidUtf8 q.jsonName = true)
     (p : PropDef) (hp : p ∈ props) :
@@ -636,6 +720,7 @@ theorem objMember_spec (c : Cfg) (L : OracleLaws c.O) (f : Nat)
       obtain ⟨hvok, hz, hdv⟩ := (fieldsOk_path c.env c.O p.path props fs p.field p.pres hLH hfok hsort
         hentry).2 v hget
       obtain ⟨t, ht, hdec, hcf⟩ := (ih (f + 1) (by omega)).val p.field v hfs hvok (by omega)
+        (modeOk_anti _ _ _ (by omega) v _ (modeOk_getPath _ _ _ p.path fs v hM hget))
       rw [ht]
       obtain ⟨lit, hl⟩ := member_ok p.jsonName t (hutf p hp)
       exact ⟨_, hl, MemberSpecF.leaf v lit t hpne hget hdec hcf hz (valOk_not_emptyColl _ _ _ _ hvok)⟩
@@ -657,6 +742,7 @@ theorem objMember_spec (c : Cfg) (L : OracleLaws c.O) (f : Nat)
         (hmementry q hq k hqk)).2 v (by simpa [getPath] using hag)
       exact ⟨h1, h2⟩
     have hshape := (ih (f + 1) (by omega)).one ops fs hopsroot hopsutf hle hvals (by omega)
+      (modeOkF_anti _ _ _ (by omega) fs _ hM)
     rw [encField_exposed c.env c.O (f + 1) p ref ops fs hp0 hpf hfind,
       hasProp_exposed c.env f p ref ops fs hp0 hpf hfind hopsroot]
     have hpaths_inv : ∀ x ∈ propPaths c.env p, ∃ q ∈ ops, ∃ k, q.path = [k] ∧ x = [k] := by
@@ -735,18 +821,18 @@ theorem RTP_obj (c : Cfg) (hs : c.env.flat = true) (L : OracleLaws c.O) (f : Nat
     ∀ props fs, rootFlat c.env (.object props) = true →
       (∀ p ∈ props, isValidUtf8 p.jsonName = true) → asorted fs = true →
       fieldsOk c.env c.O props fs = true → groupsOk props fs = true → exposedOk c.env props fs = true →
-      5 * depthFields fs + 5 ≤ f + 1 →
+      5 * depthFields fs + 5 ≤ f + 1 → modeOkF c.protoToAny (f + 1) c.anyDepth fs = true →
       ∃ ms S, encObjectBody c.env c.O (f + 1) props fs = .ok (.obj ms) ∧
         decObjMembers c props ms { m := [], seen := [] } = .ok ({ m := fs, seen := S }, .closed) ∧
         (OracleWire c.O → Wire.MembersConform c.env c.O fs props ms) := by
-  intro props fs hroot hutf hsort hfok hgrp hexp hd
+  intro props fs hroot hutf hsort hfok hgrp hexp hd hM
   obtain ⟨hkinds, hnames, hpathsnd, hLH⟩ := object_root_facts c.env props hroot
   obtain ⟨f2, rfl⟩ : ∃ f2, f = f2 + 2 := ⟨f - 2, by omega⟩
   have hfindroot : ∀ ref ops, c.env.find ref = some (.oneof ops) →
       rootSimple (.oneof ops) = true ∧ ∀ q ∈ ops, isValidUtf8 q.jsonName = true :=
     fun ref ops hfind => ⟨rootFlat_oneof c.env ops (find_rootFlat c.env hs ref _ hfind),
       find_names_utf8' c.env hs ref ops (Or.inr hfind)⟩
-  have hspec := objMember_spec c L f2 ih props fs hroot hutf hsort hfok hexp hd hfindroot
+  have hspec := objMember_spec c L f2 ih props fs hroot hutf hsort hfok hexp hd hM hfindroot
   have hsf : StoreFacts c.env props fs :=
     { sorted := hsort
       along := fun x hx => (fieldsOk_path c.env c.O x.1 props fs x.2.1 x.2.2 hLH hfok hsort hx).1
@@ -789,88 +875,54 @@ theorem RTP_obj (c : Cfg) (hs : c.env.flat = true) (L : OracleLaws c.O) (f : Nat
         obtain ⟨r', hr', hsp⟩ := hspec p hp
         rw [hr'] at hr; cases hr; exact hsp) hall
 
-/-- **structure-level round trip with progress**, all fuels -/
-theorem RTP_all (c : Cfg) (hs : c.env.flat = true) (L : OracleLaws c.O)
-    (hA : c.protoToAny = false ∨ c.env.noJ5Any = true) : ∀ f, RTP c f := by
+/-- **structure-level round trip with progress**, all fuels, all codec configurations over the same
+environment (the protobuf-`Any` case uses the facts at `anyDepth + 1`) -/
+theorem RTP_all' (env : Env) (O : Oracle) (mode : Bool) (hs : env.flat = true) (L : OracleLaws O) :
+    ∀ f d, RTP { env := env, O := O, protoToAny := mode, anyDepth := d } f := by
   intro f
   induction f using Nat.strongRecOn with
   | _ f ih =>
+    intro d
     cases f with
     | zero =>
       refine ⟨?_, ?_, ?_⟩
       · intro fld v _ _ h; omega
       · intro props fs _ _ _ _ _ _ h; omega
       · intro ops fs _ _ _ _ h; omega
-    | succ f => exact ⟨RTP_val c hs L hA f ih, RTP_obj c hs L f ih, RTP_one c f ih⟩
+    | succ f =>
+      exact ⟨RTP_val { env := env, O := O, protoToAny := mode, anyDepth := d } hs L f
+          (fun f' h => ih f' h d) (fun f' h => ih f' h (d + 1)),
+        RTP_obj { env := env, O := O, protoToAny := mode, anyDepth := d } hs L f (fun f' h => ih f' h d),
+        RTP_one { env := env, O := O, protoToAny := mode, anyDepth := d } f (fun f' h => ih f' h d)⟩
+
+theorem RTP_all (c : Cfg) (hs : c.env.flat = true) (L : OracleLaws c.O) : ∀ f, RTP c f :=
+  fun f => RTP_all' c.env c.O c.protoToAny hs L f c.anyDepth
 
 /-- **C01 on trees, flat environments**: the encoder succeeds on every representable message and
 the decoder maps the tree back to exactly that message -/
 theorem roundtrip_tree_flat_fuel (c : Cfg) (hs : c.env.flat = true) (L : OracleLaws c.O)
-    (hA : c.protoToAny = false ∨ c.env.noJ5Any = true) (root : String)
-    (m : Fields)
+    (root : String) (m : Fields)
     (hok : valOk c.env c.O (.object root) (.msg m) = true ∨ valOk c.env c.O (.oneof root) (.msg m) = true)
-    (F : Nat) (hF : 6 * (depthFields m + 1) + 9 ≤ F) :
-    ∃ t, encRoot c.env c.O (F + 1) root (.msg m) = .ok t ∧ decRootTree c root t = .ok m := by
-  rcases hok with hok | hok
-  · obtain ⟨fs, props, hv, hfind, hsort, hfok, hgrp, hexp⟩ := valOk_object _ _ root _ hok
-    cases hv
-    obtain ⟨ms, S, henc, hdec, _⟩ := (RTP_all c hs L hA F).obj props m
-      (find_rootFlat c.env hs root _ hfind) (find_names_utf8' c.env hs root props (Or.inl hfind))
-      hsort hfok hgrp hexp (by omega)
-    refine ⟨.obj ms, ?_, ?_⟩
-    · show encRoot c.env c.O (F + 1) root (.msg m) = .ok (.obj ms)
-      simp only [encRoot, hfind]; exact henc
-    · simp [decRootTree, hfind, hdec, finishObject, closeOk]
-  · obtain ⟨fs, ops, hv, hfind, hsort, hfok, hlen⟩ := valOk_oneof _ _ root _ hok
-    cases hv
-    have hroot := rootFlat_oneof c.env ops (find_rootFlat c.env hs root _ hfind)
-    have hshape := (RTP_all c hs L hA F).one ops m hroot
-      (find_names_utf8' c.env hs root ops (Or.inr hfind)) (oneof_store_le ops m hroot hlen)
-      (oneof_store_facts c ops m hroot hfok) (by omega)
-    have henc : encRoot c.env c.O (F + 1) root (.msg m) =
-        encOneofBody c.env c.O F ops m := by
-      simp only [encRoot, hfind]
-    show ∃ t, encRoot c.env c.O (F + 1) root (.msg m) = .ok t ∧ _
-    rw [henc]
-    generalize encOneofBody c.env c.O F ops m = r at hshape
-    cases hshape with
-    | empty hnil =>
-      have hfs : m = [] := by
-        rcases length_le_one_cases m hlen with h | ⟨⟨k0, v0⟩, h⟩
-        · exact h
-        · exfalso
-          subst h
-          obtain ⟨hsimple, _, _, _⟩ := oneof_root_facts ops hroot
-          obtain ⟨p, hfp, _, _⟩ := fieldsOk_mem _ _ ops _ (simple_no_flatten ops hsimple) hfok k0 v0
-            List.mem_cons_self
-          obtain ⟨hp, hpk⟩ := leafProp_simple c.env ops k0 p hsimple hfp
-          have := filter_nil_unset ops _ hnil p hp k0 hpk
-          simp [aget] at this
-      subst hfs
-      exact ⟨_, rfl, by simp [decRootTree, hfind, decOneofMembers, finishOneof, oneofPost, closeOk, applyPost]⟩
-    | one q k v tlit nlit qlit tv hone hq hqk hag hdec hcf hz hec =>
-      have hfs : m = [(k, v)] := single_store m k v hlen hag
-      obtain ⟨hloop, hpost⟩ := decOneof_one c ops hroot q k v tlit nlit qlit tv [] hq hqk hdec hz hec rfl
-        (fun _ _ _ _ _ => rfl)
-      refine ⟨_, rfl, ?_⟩
-      have : aset k v ([] : Fields) = m := by rw [hfs]; rfl
-      rw [this] at hloop hpost
-      simp [decRootTree, hfind, hloop, finishOneof, closeOk, hpost, applyPost]
+    (F : Nat) (hF : 6 * (depthFields m + 1) + 9 ≤ F)
+    (hM : modeOkF c.protoToAny F c.anyDepth m = true) :
+    ∃ t, encRoot c.env c.O (F + 1) root (.msg m) = .ok t ∧ decRootTree c root t = .ok m :=
+  root_of_RTP c hs root m hok F (RTP_all c hs L F) (by omega) hM
 
 /-- at the fuel `encodeTree` uses -/
 theorem roundtrip_tree_flat (c : Cfg) (hs : c.env.flat = true) (L : OracleLaws c.O)
-    (hA : c.protoToAny = false ∨ c.env.noJ5Any = true) (root : String)
-    (m : Fields)
-    (hok : valOk c.env c.O (.object root) (.msg m) = true ∨ valOk c.env c.O (.oneof root) (.msg m) = true) :
+    (root : String) (m : Fields)
+    (hok : valOk c.env c.O (.object root) (.msg m) = true ∨ valOk c.env c.O (.oneof root) (.msg m) = true)
+    (hM : modeOkF c.protoToAny (6 * (depthFields m + 1) + 9) c.anyDepth m = true) :
     ∃ t, encodeTree c.env c.O root (.msg m) = .ok t ∧ decRootTree c root t = .ok m := by
   unfold encodeTree encFuel
   simp only [PVal.depth]
-  exact roundtrip_tree_flat_fuel c hs L hA root m hok (6 * (depthFields m + 1) + 9) (Nat.le_refl _)
+  exact roundtrip_tree_flat_fuel c hs L root m hok (6 * (depthFields m + 1) + 9) (Nat.le_refl _) hM
 
 /-- **C08 on trees, flat environments**: the tree the encoder writes for a representable message
 has the documented structure -/
 theorem conforms_tree_flat_aux (c : Cfg) (hs : c.env.flat = true) (L : OracleLaws c.O) (W : OracleWire c.O)
-    (hA : c.protoToAny = false ∨ c.env.noJ5Any = true) (root : String) (m : Fields)
+    (root : String) (m : Fields)
+    (hM : modeOkF c.protoToAny (6 * (depthFields m + 1) + 9) c.anyDepth m = true)
     (hok : valOk c.env c.O (.object root) (.msg m) = true ∨ valOk c.env c.O (.oneof root) (.msg m) = true) :
     ∃ t, encodeTree c.env c.O root (.msg m) = .ok t ∧ Wire.RootConforms c.env c.O root m t := by
   unfold encodeTree encFuel
@@ -878,18 +930,18 @@ theorem conforms_tree_flat_aux (c : Cfg) (hs : c.env.flat = true) (L : OracleLaw
   rcases hok with hok | hok
   · obtain ⟨fs, props, hv, hfind, hsort, hfok, hgrp, hexp⟩ := valOk_object _ _ root _ hok
     cases hv
-    obtain ⟨ms, S, henc, _, hcf⟩ := (RTP_all c hs L hA (6 * (depthFields m + 1) + 9)).obj props m
+    obtain ⟨ms, S, henc, _, hcf⟩ := (RTP_all c hs L (6 * (depthFields m + 1) + 9)).obj props m
       (find_rootFlat c.env hs root _ hfind) (find_names_utf8' c.env hs root props (Or.inl hfind))
-      hsort hfok hgrp hexp (by omega)
+      hsort hfok hgrp hexp (by omega) hM
     refine ⟨.obj ms, ?_, Or.inl ⟨props, ms, hfind, rfl, hcf W⟩⟩
     show encRoot c.env c.O (6 * (depthFields m + 1) + 9 + 1) root (.msg m) = .ok (.obj ms)
     simp only [encRoot, hfind]; exact henc
   · obtain ⟨fs, ops, hv, hfind, hsort, hfok, hlen⟩ := valOk_oneof _ _ root _ hok
     cases hv
     have hroot := rootFlat_oneof c.env ops (find_rootFlat c.env hs root _ hfind)
-    have hshape := (RTP_all c hs L hA (6 * (depthFields m + 1) + 9)).one ops m hroot
+    have hshape := (RTP_all c hs L (6 * (depthFields m + 1) + 9)).one ops m hroot
       (find_names_utf8' c.env hs root ops (Or.inr hfind)) (oneof_store_le ops m hroot hlen)
-      (oneof_store_facts c ops m hroot hfok) (by omega)
+      (oneof_store_facts c ops m hroot hfok) (by omega) hM
     have henc : encRoot c.env c.O (6 * (depthFields m + 1) + 9 + 1) root (.msg m) =
         encOneofBody c.env c.O (6 * (depthFields m + 1) + 9) ops m := by
       simp only [encRoot, hfind]
@@ -902,8 +954,10 @@ theorem conforms_tree_flat_aux (c : Cfg) (hs : c.env.flat = true) (L : OracleLaw
 without `WithProtoToAny` -/
 theorem conforms_tree_flat (c : Cfg) (hs : c.env.flat = true) (L : OracleLaws c.O) (W : OracleWire c.O)
     (root : String) (m : Fields)
-    (hok : valOk c.env c.O (.object root) (.msg m) = true ∨ valOk c.env c.O (.oneof root) (.msg m) = true) :
-    ∃ t, encodeTree c.env c.O root (.msg m) = .ok t ∧ Wire.RootConforms c.env c.O root m t :=
-  conforms_tree_flat_aux { c with protoToAny := false } hs L W (Or.inl rfl) root m hok
+    (hok : valOk c.env c.O (.object root) (.msg m) = true ∨ valOk c.env c.O (.oneof root) (.msg m) = true)
+    (hM : ∃ mode, modeOkF mode (6 * (depthFields m + 1) + 9) 0 m = true) :
+    ∃ t, encodeTree c.env c.O root (.msg m) = .ok t ∧ Wire.RootConforms c.env c.O root m t := by
+  obtain ⟨mode, hM⟩ := hM
+  exact conforms_tree_flat_aux { c with protoToAny := mode, anyDepth := 0 } hs L W root m hM hok
 
 end J5V.Codec
